@@ -2,9 +2,9 @@ SPECIFICATION Spec
 CONSTANTS
   Gor = {"g1", "g2", "g3"}
   Eps = {"E", "F"}
-  Svcs = {"xe", "e", "ef", "f", "t"}
+  Svcs = {"xe", "e", "t", "x"}
   Adv <- AdvAll
-  MaxReq = 1
+  MaxReq = 2
   MaxLoss = 0
   AuthMayRefuse = FALSE
   Dev_RUnlockUnderWriteLock = FALSE
